@@ -478,7 +478,7 @@ func redactRecursively(obj interface{}, paths []string) (newObj interface{}, err
 				return
 			}
 
-			err = jsonPath.Set(newObj, string(xmlValue))
+			err = setMatches(newObj, jsonPath, string(xmlValue))
 			return
 		}
 
@@ -515,20 +515,21 @@ func redactRecursively(obj interface{}, paths []string) (newObj interface{}, err
 				newValue = base64.StdEncoding.EncodeToString([]byte(newValue))
 			}
 
-			err = jsonPath.Set(newObj, newValue)
+			err = setMatches(newObj, jsonPath, newValue)
 			return
 		}
 
-		err = redactMatches(newObj, jsonPath)
+		err = setMatches(newObj, jsonPath, REDACTED)
 	}
 	return
 }
 
-// redactMatches puts the redaction marker into the locations that the path denotes.
+// setMatches puts the value into the locations that the path denotes.
 // `jp.(*Expr).Set` adds the missing keys along a path. For a wildcard or a recursive
-// descent this means that every element which lacks the rest of the path gains it.
+// descent this means that every element which lacks the rest of the path gains it
+// and that it gives up at the first element where the rest can't be added.
 // So the parents are looked up and only their existing members are replaced.
-func redactMatches(obj interface{}, jsonPath jp.Expr) error {
+func setMatches(obj interface{}, jsonPath jp.Expr, value interface{}) error {
 	last := len(jsonPath) - 1
 	parents := []interface{}{obj}
 	if last > 0 {
@@ -540,7 +541,7 @@ func redactMatches(obj interface{}, jsonPath jp.Expr) error {
 		for _, parent := range parents {
 			if object, ok := parent.(map[string]interface{}); ok {
 				if _, ok := object[string(frag)]; ok {
-					object[string(frag)] = REDACTED
+					object[string(frag)] = value
 				}
 			}
 		}
@@ -552,7 +553,7 @@ func redactMatches(obj interface{}, jsonPath jp.Expr) error {
 					i += len(array)
 				}
 				if 0 <= i && i < len(array) {
-					array[i] = REDACTED
+					array[i] = value
 				}
 			}
 		}
@@ -561,16 +562,16 @@ func redactMatches(obj interface{}, jsonPath jp.Expr) error {
 			switch parent := parent.(type) {
 			case map[string]interface{}:
 				for key := range parent {
-					parent[key] = REDACTED
+					parent[key] = value
 				}
 			case []interface{}:
 				for i := range parent {
-					parent[i] = REDACTED
+					parent[i] = value
 				}
 			}
 		}
 	default:
-		return jsonPath.Set(obj, REDACTED)
+		return jsonPath.Set(obj, value)
 	}
 	return nil
 }
